@@ -19,6 +19,8 @@
 #include "color.h"
 #include "filesettings.h"
 #include "xml.h"
+#include "executor.h"
+#include "filesettings.h"
 
 #include <cctype>
 #include <cstdlib>
@@ -275,6 +277,14 @@ public:
     void reportProgress(const std::string& /*filename*/, const char /*stage*/[], const std::size_t /*value*/) override {}
 };
 
+// Executor::hasToLog is protected: a subclass re-exports it
+class OpenExecutor : public Executor {
+public:
+    using Executor::Executor;
+    using Executor::hasToLog;
+    unsigned int check() override { return 0; }
+};
+
 static const char* const TEMPLATES[] = { "{file}:{line}:{id}:{message}", "{id}", "{file}:{id}", "{remark}", "{id}:{line}" };
 
 static std::string opGate(const std::vector<std::string>& f) {
@@ -361,6 +371,7 @@ static std::string opGate(const std::vector<std::string>& f) {
         CppCheck cppcheck(settings, supprs, logger, nullptr, ug, exec);
         exitcode = cppcheck.analyseWholeProgram("", {}, {}, "");
     }
+    const std::string flags1 = flagsStr(supprs.nomsg.getSuppressions());
     std::string outs;
     for (const ErrorMessage& m : logger.msgs) {
         if (m.id == "logChecker") continue;   // bookkeeping messages of the whole-program checks, not findings
@@ -384,11 +395,25 @@ static std::string opGate(const std::vector<std::string>& f) {
         if (idx < 0 && std::getenv("C23_DEBUG")) std::cerr << "unmatched msg id=" << m.id << " sev=" << static_cast<int>(m.severity) << " hash=" << m.hash << " stack=" << m.callStack.size() << " msg=" << m.shortMessage() << std::endl;
         outs += (outs.empty() ? "" : ",") + std::to_string(idx) + ":" + B(asInternal) + ":" + hex(m.remark);
     }
+    // second gate of a parallel run: everything the logger forwarded goes through Executor::hasToLog (same lists, same settings)
+    std::string ebits;
+    {
+        std::list<FileWithDetails> nofiles;
+        std::list<FileSettings> nofs;
+        RecLogger sink;
+        OpenExecutor ex(nofiles, nofs, settings, supprs, sink, nullptr);
+        for (const ErrorMessage& m : logger.msgs) {
+            if (m.id == "logChecker") continue;
+            ebits += B(ex.hasToLog(m));
+        }
+    }
+    const std::string flags2 = flagsStr(supprs.nomsg.getSuppressions());
     std::string derived;
     for (const GFinding& g : fs)
         derived += " " + B(g.skip) + ":" + B(g.internal) + ":" + B(g.libReports) + ":" + B(g.critical) + ":" + hex(g.text) + ":" + hex(g.id) + ":" + hex(g.symbolNames) + ":" + hex(g.gfile);
     return "A " + (adds.empty() ? std::string("_") : adds) + " O " + (outs.empty() ? std::string("_") : outs) + " X " + std::to_string(exitcode) +
-           " N " + flagsStr(supprs.nomsg.getSuppressions()) + " M " + flagsStr(supprs.nofail.getSuppressions()) + " | D" + derived + tb.str();
+           " N " + flags1 + " M " + flagsStr(supprs.nofail.getSuppressions()) + " E " + (ebits.empty() ? std::string("_") : ebits) + " N2 " + flags2 +
+           " | D" + derived + tb.str();
 }
 
 static std::string step(const std::vector<std::string>& f) {
@@ -493,6 +518,61 @@ static std::string step(const std::vector<std::string>& f) {
         std::string out = lineErrClass(err) + " " + std::to_string(l.size());
         for (const auto& s : l) out += " " + supprStr(s);
         return out;
+    }
+    if (op == "pfp" || op == "pxp") {
+        // n {errorId fileName line symbolName}*n : the file written from these suppressions (text: one toString() per line;
+        // xml: <suppress><id/>[<fileName/>][<lineNumber/>][<symbolName/>]</suppress>) is parsed by the real parser
+        size_t i = 1;
+        const int n = std::stoi(f.at(i++));
+        Tables tb;
+        std::vector<SuppressionList::Suppression> v;
+        for (int k = 0; k < n; ++k) {
+            SuppressionList::Suppression s;
+            s.errorId = unhex(f.at(i++));
+            s.fileName = unhex(f.at(i++));
+            s.lineNumber = std::stoi(f.at(i++));
+            s.symbolName = unhex(f.at(i++));
+            tb.simplify(s.fileName);
+            v.push_back(s);
+        }
+        SuppressionList list;
+        std::string cls;
+        if (op == "pfp") {
+            std::string data;
+            for (const auto& s : v) data += s.toString() + "\n";
+            std::istringstream is(data);
+            cls = lineErrClass(list.parseFile(is));
+        } else {
+            tinyxml2::XMLDocument doc;
+            tinyxml2::XMLElement* root = doc.NewElement("suppressions");
+            doc.InsertEndChild(root);
+            for (const auto& s : v) {
+                tinyxml2::XMLElement* e = doc.NewElement("suppress");
+                root->InsertEndChild(e);
+                auto add = [&](const char* name, const std::string& text) {
+                    tinyxml2::XMLElement* c = doc.NewElement(name);
+                    if (!text.empty()) c->SetText(text.c_str());
+                    e->InsertEndChild(c);
+                };
+                add("id", s.errorId);
+                if (!s.fileName.empty()) add("fileName", s.fileName);
+                if (s.lineNumber != -1) add("lineNumber", std::to_string(s.lineNumber));
+                if (!s.symbolName.empty()) add("symbolName", s.symbolName);
+            }
+            const std::string path = "c23p-" + std::to_string(getpid()) + ".xml";
+            doc.SaveFile(path.c_str());
+            try {
+                const std::string err = list.parseXmlFile(path.c_str());
+                cls = err.empty() ? "ok" : lineErrClass(err);
+            } catch (const std::runtime_error&) {
+                cls = "T";
+            }
+            std::remove(path.c_str());
+        }
+        const auto l = list.getSuppressions();
+        std::string out = cls + " " + std::to_string(l.size());
+        for (const auto& s : l) out += " " + supprStr(s);
+        return out + " |" + tb.str();
     }
     if (op == "px") {
         size_t i = 1;
